@@ -4,8 +4,11 @@ package ref
 
 import (
 	"bytes"
+	"fmt"
 	"math/big"
 )
+
+var sprintf = fmt.Sprintf
 
 // CRC24Q is a bit-serial CRC-24Q: polynomial 0x1864CFB, initial value 0,
 // no reflection, no final xor.
@@ -123,3 +126,31 @@ func SignedBits(buf []byte, pos, width int) *big.Int {
 	}
 	return v
 }
+
+// SelfTest checks the independent CRC against the published CRC-24Q check
+// value and two frames captured from real receivers (bytes copied from the
+// repository's test data at the time the harness was written).
+func SelfTest() error {
+	if c := CRC24Q([]byte("123456789")); c != 0xCDE703 {
+		return errorf("CRC24Q(\"123456789\") = %06x, want cde703", c)
+	}
+	f1005 := []byte{0xd3, 0, 19, 0x3e, 0xd0, 0x02, 0x0f, 0xc0, 0x00, 0x01, 0xe2, 0x40, 0x40, 0x00, 0x03, 0x94, 0x47, 0x80, 0x00, 0x05, 0x46, 0x4e, 0x5b, 0x90, 0x5f}
+	f1230 := []byte{0xd3, 0x00, 0x08, 0x4c, 0xe0, 00, 0x8a, 0, 0, 0, 0, 0xa8, 0xf7, 0x2a}
+	if !ValidFrame(f1005) || TypeOf(f1005) != 1005 {
+		return errorf("captured 1005 frame not accepted by ValidFrame")
+	}
+	if !ValidFrame(f1230) || TypeOf(f1230) != 1230 {
+		return errorf("captured 1230 frame not accepted by ValidFrame")
+	}
+	f1005[10] ^= 1
+	if ValidFrame(f1005) {
+		return errorf("corrupted frame accepted by ValidFrame")
+	}
+	return nil
+}
+
+type refError string
+
+func (e refError) Error() string { return string(e) }
+
+func errorf(f string, a ...interface{}) error { return refError(sprintf(f, a...)) }
